@@ -461,3 +461,178 @@ func (w *W) genBoundaryPairs(fn inputFn) {
 		}
 	}
 }
+
+// genFillBlock slides tokens across the end of the 64-byte block in which an
+// index buffer fills up (the point where stage 1 starts a new round and has
+// to carry quote state, odd backslash runs and the pseudo-structural
+// predecessor over). nbuf: which buffer (1st, 2nd, 3rd).
+func (w *W) genFillBlock(step int, fn inputFn) {
+	toks := append([]string{}, carriers...)
+	toks = append(toks, `"ab\"cd"`, `"ab\\"`, `"ab\\\"cd"`, `"\\\\\\\""`, `"x\n\"y"`, `{"k\"":"v\\"}`, `["\"","\\"]`, `"é\"😀"`, "true", "-1.5e3", `{"a":{"b":[]}}`)
+	i := 0
+	for nbuf := 1; nbuf <= 3; nbuf++ {
+		var pre bytes.Buffer
+		pre.WriteByte('[')
+		for pre.Len() < 1408*(nbuf-1) {
+			// complete buffers: all-structural bytes, 1408 each
+			if 1408*(nbuf-1)-pre.Len() >= 2 {
+				pre.WriteString("0,")
+			} else {
+				pre.WriteByte(' ')
+			}
+		}
+		// 1400 structurals over the next 1408 bytes: no fill at the end of that block
+		base := pre.Len()
+		for pre.Len() < base+1400 {
+			pre.WriteString("0,")
+		}
+		for pre.Len() < base+1408 {
+			pre.WriteByte(' ')
+		}
+		// ten more structurals: the count passes 1408 early in the fill block
+		pre.WriteString("0,0,0,0,0,")
+		p := pre.Bytes()
+		// more than 64 bytes must follow the fill block, or stage 1 tags the tail on to the same round
+		more := strings.Repeat(`,"m",0`, 40)
+		for _, tok := range toks {
+			for s := 0; s <= 70; s += step {
+				i++
+				if !w.mine(i) {
+					continue
+				}
+				// token after s bytes of string padding, so that the padding's closing quote,
+				// the comma and the token cross the block end at every alignment
+				var b bytes.Buffer
+				b.Write(p)
+				b.WriteString(`"` + strings.Repeat("s", s) + `",`)
+				b.WriteString(tok)
+				b.WriteString(`,"t"` + more + `]`)
+				fn("fill-block", b.Bytes())
+				// and with white space instead of a string
+				b.Reset()
+				b.Write(p)
+				b.WriteString(strings.Repeat(" ", s))
+				b.WriteString(tok)
+				b.WriteString(`,1` + more + `]`)
+				fn("fill-block-ws", b.Bytes())
+				// escapes inside one long string crossing the block end
+				b.Reset()
+				b.Write(p)
+				b.WriteString(`"` + strings.Repeat("s", s) + `\"` + strings.Repeat("u", 5) + `\\` + `",` + tok + more + `]`)
+				fn("fill-block-esc", b.Bytes())
+			}
+		}
+	}
+}
+
+// genBufferFill: inputs whose last index buffer ends as full as it can get:
+// N all-structural blocks, two partly structural blocks (a and b structurals)
+// and an all-structural tail of t bytes. Exercises the safety margin of the
+// index buffers (1536 entries, rounds stop at 1408 + at most 63, the tail
+// adds at most 64).
+func (w *W) genBufferFill(fn inputFn) {
+	i := 0
+	blk := func(k int, c byte) string { return strings.Repeat(string(c), k) + strings.Repeat(" ", 64-k) }
+	for _, c := range []byte{',', '[', '\n'} {
+		for n := 19; n <= 25; n++ {
+			for _, a := range []int{0, 1, 31, 62, 63, 64} {
+				for _, b := range []int{0, 1, 33, 63, 64} {
+					for _, t := range []int{0, 1, 2, 31, 62, 63, 64} {
+						i++
+						if !w.mine(i) {
+							continue
+						}
+						var sb strings.Builder
+						sb.WriteString("[")
+						sb.WriteString(strings.Repeat(string(c), 63))
+						sb.WriteString(strings.Repeat(strings.Repeat(string(c), 64), n-1))
+						sb.WriteString(blk(a, c))
+						sb.WriteString(blk(b, c))
+						if t > 0 {
+							sb.WriteString(strings.Repeat(string(c), t-1))
+						}
+						sb.WriteString("]")
+						fn("buffer-fill", []byte(sb.String()))
+					}
+				}
+			}
+		}
+	}
+}
+
+func fillStep(w *W) int {
+	if w.thorough() {
+		return 1
+	}
+	return 3
+}
+
+// spaceInDense returns the valid document [1,1,...,1] of exactly total bytes
+// with one space inserted q bytes before the end (between a number and its
+// comma): all bytes but one are indexed by stage 1, which lets a round end
+// with 1408+63 entries and the tail add up to 64 more.
+func spaceInDense(total, q int) []byte {
+	n := (total - 1) / 2 // number of "1," / "1]" pairs
+	b := make([]byte, 0, total+1)
+	b = append(b, '[')
+	for i := 0; i < n; i++ {
+		b = append(b, '1', ',')
+	}
+	b[len(b)-1] = ']'
+	if q > 2 && q < len(b)-2 {
+		p := len(b) - q
+		if b[p] == ',' {
+			p-- // insert before a comma: after the digit
+			p++
+		}
+		if b[p] != ',' {
+			p++
+		}
+		b = append(b[:p], append([]byte{' '}, b[p:]...)...)
+	}
+	return b
+}
+
+// genSpaceInDense sweeps total length and the position of the space.
+func (w *W) genSpaceInDense(bases []int, fn inputFn) {
+	i := 0
+	for _, base := range bases {
+		for r := 0; r <= 1600; r += 29 {
+			for q := 66; q <= 1750; q += 59 {
+				i++
+				if !w.mine(i) {
+					continue
+				}
+				fn("space-in-dense", spaceInDense(base+r, q))
+			}
+		}
+	}
+}
+
+// alignedPartial builds the valid document "[ 1,1,...]" in which two 64-byte
+// blocks near the end hold only a and b indexed bytes (the rest spaces),
+// followed by t more dense bytes: every round of stage 1 ends as full as the
+// layout allows and the tail is tagged on to it.
+func alignedPartial(j, a, b, t int) []byte {
+	part := func(k int) string { return strings.Repeat("1,", k/2) + strings.Repeat(" ", 64-k/2*2) }
+	p := 31 + 32*j
+	return []byte("[ " + strings.Repeat("1,", p) + part(a) + part(b) + strings.Repeat("1,", t/2) + "1]")
+}
+
+// genAlignedPartial sweeps alignedPartial over prefix lengths jLo..jHi.
+func (w *W) genAlignedPartial(jLo, jHi, jStep int, fn inputFn) {
+	i := 0
+	for j := jLo; j <= jHi; j += jStep {
+		for _, a := range []int{0, 2, 60, 62, 64} {
+			for _, b := range []int{0, 2, 62, 64} {
+				for _, t := range []int{0, 2, 30, 60, 62, 64} {
+					i++
+					if !w.mine(i) {
+						continue
+					}
+					fn("aligned-partial", alignedPartial(j, a, b, t))
+				}
+			}
+		}
+	}
+}
